@@ -1,4 +1,5 @@
 import KM.Model.Redirect
+set_option linter.unusedSimpArgs false
 /-! Helper lemmas for C13 (kept apart from the property statements). Core-only. -/
 namespace KM.Redirect
 
@@ -41,11 +42,11 @@ theorem safeC_of_schemeChar {c : Char} (h : schemeChar c = true) : safeC c ∧ c
 theorem schemeChar_of_isAlpha {c : Char} (h : isAlpha c = true) : schemeChar c = true := by
   simp [schemeChar, h]
 
-theorem safeC_pct : safeC '%' := by decide
-theorem safeC_at : safeC '@' := by decide
-theorem safeC_colon : safeC ':' := by decide
-theorem safeC_slash : safeC '/' := by decide
-theorem safeC_rbr : safeC ']' := by decide
+theorem safeC_pct : safeC '%' := ⟨by decide, by decide⟩
+theorem safeC_at : safeC '@' := ⟨by decide, by decide⟩
+theorem safeC_colon : safeC ':' := ⟨by decide, by decide⟩
+theorem safeC_slash : safeC '/' := ⟨by decide, by decide⟩
+theorem safeC_rbr : safeC ']' := ⟨by decide, by decide⟩
 
 theorem not_c0space_of_safeC {c : Char} (h : safeC c) : c0space c = false := by
   simp only [safeC] at h
@@ -82,8 +83,8 @@ theorem fromFirst_nil_or_cons (d : Char) (l : List Char) :
   | nil => left; rfl
   | cons a as ih =>
     by_cases h : a = d
-    · right; refine ⟨as, ?_⟩; simp [fromFirst, List.dropWhile, h]
-    · have : fromFirst d (a :: as) = fromFirst d as := by simp [fromFirst, List.dropWhile, h]
+    · right; refine ⟨as, ?_⟩; simp [fromFirst, List.dropWhile_cons, h]
+    · have : fromFirst d (a :: as) = fromFirst d as := by simp [fromFirst, List.dropWhile_cons, h]
       rw [this]; exact ih
 
 theorem mem_before {d c : Char} {l : List Char} (h : c ∈ before d l) : c ∈ l ∧ c ≠ d := by
@@ -91,8 +92,8 @@ theorem mem_before {d c : Char} {l : List Char} (h : c ∈ before d l) : c ∈ l
   | nil => simp [before] at h
   | cons a as ih =>
     by_cases had : a = d
-    · simp [before, List.takeWhile, had] at h
-    · have hb : before d (a :: as) = a :: before d as := by simp [before, List.takeWhile, had]
+    · simp [before, List.takeWhile_cons, had] at h
+    · have hb : before d (a :: as) = a :: before d as := by simp [before, List.takeWhile_cons, had]
       rw [hb] at h
       cases h with
       | head => exact ⟨List.mem_cons_self, had⟩
@@ -163,5 +164,164 @@ theorem afterLast_snoc {c x : Char} (l : List Char) (h : c ≠ x) : afterLast c 
     split
     · exact ih
     · split <;> simp
+
+/-! ### percent-decoding and host validation -/
+
+theorem hostOK_safe {l : List Char} (h : hostOK l = true) : ∀ c ∈ l, safeC c := by
+  fun_induction hostOK l with
+  | case1 a b r ih =>
+    simp only [Bool.and_eq_true] at h
+    intro c hm
+    simp only [List.mem_cons] at hm
+    rcases hm with rfl | rfl | rfl | hm
+    · exact safeC_pct
+    · exact safeC_of_isHex h.1.1.1
+    · exact safeC_of_isHex h.1.1.2
+    · exact ih h.2 c hm
+  | case2 c a b r hc ih =>
+    simp only [Bool.and_eq_true] at h
+    intro x hm
+    cases hm with
+    | head => exact (safeC_of_hostCharOK h.1).1
+    | tail _ hm => exact ih h.2 x hm
+  | case3 c d =>
+    simp only [Bool.and_eq_true] at h
+    intro x hm
+    simp only [List.mem_cons, List.not_mem_nil, or_false] at hm
+    rcases hm with rfl | rfl
+    · exact (safeC_of_hostCharOK h.1).1
+    · exact (safeC_of_hostCharOK h.2).1
+  | case4 c =>
+    intro x hm
+    simp only [List.mem_cons, List.not_mem_nil, or_false] at hm
+    subst hm
+    exact (safeC_of_hostCharOK h).1
+  | case5 => intro x hm; cases hm
+
+theorem zoneOK_safe {l : List Char} (h : zoneOK l = true) : ∀ c ∈ l, safeC c := by
+  fun_induction zoneOK l with
+  | case1 a b r ih =>
+    simp only [Bool.and_eq_true] at h
+    intro c hm
+    simp only [List.mem_cons] at hm
+    rcases hm with rfl | rfl | rfl | hm
+    · exact safeC_pct
+    · exact safeC_of_isHex h.1.1.1
+    · exact safeC_of_isHex h.1.1.2
+    · exact ih h.2 c hm
+  | case2 c a b r hc ih =>
+    simp only [Bool.and_eq_true] at h
+    intro x hm
+    cases hm with
+    | head => exact (safeC_of_hostCharOK h.1).1
+    | tail _ hm => exact ih h.2 x hm
+  | case3 c d =>
+    simp only [Bool.and_eq_true] at h
+    intro x hm
+    simp only [List.mem_cons, List.not_mem_nil, or_false] at hm
+    rcases hm with rfl | rfl
+    · exact (safeC_of_hostCharOK h.1).1
+    · exact (safeC_of_hostCharOK h.2).1
+  | case4 c =>
+    intro x hm
+    simp only [List.mem_cons, List.not_mem_nil, or_false] at hm
+    subst hm
+    exact (safeC_of_hostCharOK h).1
+  | case5 => intro x hm; cases hm
+
+theorem pctDecode_eq_goDecode {l : List Char} (h : hostOK l = true) : pctDecode l = goDecode l := by
+  fun_induction hostOK l with
+  | case1 a b r ih =>
+    simp only [Bool.and_eq_true] at h
+    simp [pctDecode, goDecode, h.1.1.1, h.1.1.2, ih h.2]
+  | case2 c a b r hc ih =>
+    simp only [Bool.and_eq_true] at h
+    simp [pctDecode, goDecode, hc, ih h.2]
+  | case3 c d => simp [pctDecode, goDecode]
+  | case4 c => simp [pctDecode, goDecode]
+  | case5 => simp [pctDecode, goDecode]
+
+theorem mem_pctDecode {c : Char} {l : List Char} (hm : c ∈ l) (h1 : c ≠ '%') (h2 : isHex c = false) :
+    c ∈ pctDecode l := by
+  fun_induction pctDecode l with
+  | case1 x a b r hc ih =>
+    simp only [List.mem_cons] at hm
+    rcases hm with rfl | rfl | rfl | hm
+    · exact absurd hc.1 h1
+    · rw [hc.2.1] at h2; cases h2
+    · rw [hc.2.2] at h2; cases h2
+    · exact List.mem_cons_of_mem _ (ih hm)
+  | case2 x a b r hc ih =>
+    cases hm with
+    | head => exact List.mem_cons_self
+    | tail _ hm => exact List.mem_cons_of_mem _ (ih hm)
+  | case3 l hl => exact hm
+
+theorem goDecode_of_no_pct {l : List Char} (h : '%' ∉ l) : goDecode l = l := by
+  fun_induction goDecode l with
+  | case1 a b r ih => exact absurd List.mem_cons_self h
+  | case2 c a b r hc ih =>
+    rw [ih (fun hm => h (List.mem_cons_of_mem _ hm))]
+  | case3 l hl => rfl
+
+theorem hostOK_split_colon {a b : List Char} (h : hostOK (a ++ ':' :: b) = true) :
+    hostOK a = true ∧ hostOK (':' :: b) = true ∧ goDecode (a ++ ':' :: b) = goDecode a ++ goDecode (':' :: b) := by
+  fun_induction hostOK a with
+  | case1 x y r ih =>
+    simp only [List.cons_append, hostOK, if_true, Bool.and_eq_true] at h
+    obtain ⟨h1, h2, h3⟩ := ih h.2
+    refine ⟨?_, h2, ?_⟩
+    · simp only [Bool.and_eq_true]; exact ⟨h.1, h1⟩
+    · simp [goDecode, h3]
+  | case2 c x y r hc ih =>
+    simp only [List.cons_append, hostOK, hc, if_false, Bool.and_eq_true] at h
+    obtain ⟨h1, h2, h3⟩ := ih h.2
+    refine ⟨?_, h2, ?_⟩
+    · simp only [Bool.and_eq_true]; exact ⟨h.1, h1⟩
+    · simp only [List.cons_append, goDecode, hc, if_false]
+      rw [← h3]; rfl
+  | case3 c d =>
+    have hd : hostCharOK c = true ∧ hostCharOK d = true ∧ hostOK (':' :: b) = true := by
+      cases b with
+      | nil =>
+        simp only [List.cons_append, List.nil_append, hostOK, Bool.and_eq_true] at h
+        split at h
+        · simp [not_isHex_colon] at h
+        · simp only [Bool.and_eq_true] at h
+          exact ⟨h.1, h.2.1, by simp [hostOK, h.2.2]⟩
+      | cons b0 r =>
+        simp only [List.cons_append, List.nil_append, hostOK, Bool.and_eq_true] at h
+        split at h
+        · simp [not_isHex_colon] at h
+        · simp only [Bool.and_eq_true] at h
+          split at h
+          · simp [not_isHex_colon] at h
+          · simp only [Bool.and_eq_true] at h
+            exact ⟨h.1, h.2.1, by simp [hostOK, h.2.2]⟩
+    have hc : c ≠ '%' := (safeC_of_hostCharOK hd.1).2
+    have hd' : d ≠ '%' := (safeC_of_hostCharOK hd.2.1).2
+    refine ⟨by simp [hostOK, hd.1, hd.2.1], hd.2.2, ?_⟩
+    cases b with
+    | nil => simp [goDecode, hc]
+    | cons b0 r => simp [goDecode, hc, hd']
+  | case4 c =>
+    have hd : hostCharOK c = true ∧ hostOK (':' :: b) = true := by
+      cases b with
+      | nil =>
+        simp only [List.cons_append, List.nil_append, hostOK, Bool.and_eq_true] at h
+        exact ⟨h.1, by simp [hostOK, h.2]⟩
+      | cons b0 r =>
+        simp only [List.cons_append, List.nil_append, hostOK, Bool.and_eq_true] at h
+        split at h
+        · simp [not_isHex_colon] at h
+        · simp only [Bool.and_eq_true] at h
+          exact ⟨h.1, by simp [hostOK, h.2]⟩
+    have hc : c ≠ '%' := (safeC_of_hostCharOK hd.1).2
+    refine ⟨by simp [hostOK, hd.1], hd.2, ?_⟩
+    cases b with
+    | nil => simp [goDecode]
+    | cons b0 r => simp [goDecode, hc]
+  | case5 => exact ⟨rfl, h, rfl⟩
+
 
 end KM.Redirect
